@@ -436,7 +436,8 @@ def snakecase_to_camelcase(value: str) -> str:
     '__foo__'
 
     """
-    if not value:
+    if not value.strip("_"):
+        # Empty, or only underscores (`_` is a valid GraphQL name): nothing to convert.
         return value
 
     # Regex matches everything.
